@@ -2,6 +2,7 @@
 use vstd::prelude::*;
 use vstd::string::StringSliceAdditionalSpecFns;
 verus! {
+//@include specs/std_extra.rs
 // ---------------------------------------------------------------- trusted prelude
 /// Unicode White_Space of one code point (`char::is_whitespace`); its ASCII part is fixed by the standard:
 /// U+0009..U+000D and U+0020.
